@@ -22,7 +22,8 @@ Convert(F, kind, v) ==
   ELSE CASE kind = "eval" -> v
          [] kind = "bool" -> BV(ToBool(v))
          [] kind = "num"  -> NV(ToNumX(F, v))
-         [] kind \in {"str", "chars"} -> SV(ToStr(F, v))
+         [] kind = "str" -> SV(<<80, 82, 69>> \o ToStr(F, v))     \* appended to the caller's string, which holds "PRE"
+         [] kind = "chars" -> SV(ToStr(F, v))
          [] kind = "nodelist" -> IF v.t = "ns" THEN v ELSE ErrV
 
 C02Step(s, ev) ==
